@@ -403,7 +403,7 @@ func runC16(c *Ctx) error {
 		case 3: // safeRead on crafted headers: limits, uint32 wrap, varint overflow, short input
 			var buf []byte
 			kind := c.Rng.Intn(9)
-			if kind == 1 && c.kinds["wrap-alloc"] >= 1 {
+			if kind == 1 && c.kinds["wrap-alloc-rd"] >= 1 {
 				kind = 5 // the uint32-wrap cases allocate 8 GiB of address space each: a few per run
 			}
 			switch kind {
@@ -411,9 +411,9 @@ func runC16(c *Ctx) error {
 				kl := uint64([]int{65535, 65536, 65537, 1 << 20}[c.Rng.Intn(4)])
 				buf = append(rawHeader(1, 2, kl, 3, 0), make([]byte, 40)...)
 			case 1: // uint32 wrap of klen+vlen: panic in buf[:klen]
-				c.Count("wrap-alloc")
+				c.Count("wrap-alloc-rd")
 				kl := uint64(1 + c.Rng.Intn(200))
-				buf = append(rawHeader(0, 0, kl, (1<<32)-uint64(1+c.Rng.Intn(int(kl))), c.lexp()), c.rawBytes(300)...)
+				buf = append(rawHeader(0, 0, kl, (1<<32)-uint64(1+c.Rng.Intn(int(kl))), c.lexp()), make([]byte, 250)...)
 			case 2: // klen/vlen above 32 bits are truncated
 				buf = append(rawHeader(0, 0, (1<<32)+uint64(c.Rng.Intn(4)), (1<<32)*uint64(1+c.Rng.Intn(5))+uint64(c.Rng.Intn(4)), 0), c.rawBytes(12)...)
 			case 3: // varint overflow in one of the three fields
@@ -573,7 +573,7 @@ func runC16(c *Ctx) error {
 			b := buildLog(c, us, lenc{})
 			data := append([]byte{}, b.Data...)
 			tk := c.Rng.Intn(4)
-			if tk == 2 && c.kinds["wrap-alloc"] >= 1 {
+			if tk == 2 && c.kinds["wrap-alloc-iter"] >= 1 {
 				tk = 0
 			}
 			switch tk {
@@ -589,9 +589,9 @@ func runC16(c *Ctx) error {
 				data = append(data, bytes.Repeat([]byte{0xff}, 10)...)
 				data = append(data, 1, 2, 3)
 			case 2: // wrap panic after the good units
-				c.Count("wrap-alloc")
+				c.Count("wrap-alloc-iter")
 				data = append(data, rawHeader(0, 0, 9, (1<<32)-4, 0)...)
-				data = append(data, c.rawBytes(40)...)
+				data = append(data, make([]byte, 30)...)
 			case 3: // short file: fewer than 20 bytes
 				data = data[:c.Rng.Intn(21)]
 			}
